@@ -117,6 +117,53 @@ def doc_worker(kp, job):
     return {'records': records}
 
 
+MULTI = ['&(', '&)', '&&(', 'Ww', 'TT', 'xx', 'yy', '[y', '??', '(', ')', 'w', 'W', 'T', 'x', 'y', '[', ']', '?', 'q', 'L', 'J', "'", '^',
+         '<', '>', 'M', 'm', 't', 'S', '$', ':', 'O', '_', ';', 'i', '/', '\\', 'k', 'K', 'yyy']
+
+
+def multi_worker(kp, job):
+    """signifiers of more than one character (elided slurs &( &), Ww, TT, xx, yy, [y, ??) mixed with their one-character
+    parts, on single notes and inside chords: outside the scanner model, so kernpy alone is checked - the export
+    re-imports without errors and re-exports to itself (default and extended)"""
+    seed, idx = job
+    rng = random.Random(seed * 472882027 + idx)
+    records = []
+    for _ in range(40):
+        def note():
+            ds = [rng.choice(MULTI) for _ in range(rng.randint(1, 3))]
+            pre = ''.join(d for d in ds if d in ('(', '&(', '&&(', '[', '[y') and rng.random() < 0.35)
+            return pre + rng.choice(['4', '8', '16', '2.']) + rng.choice(['c', 'dd', 'E', 'f#', 'b-']) + ''.join(ds)
+        cell = note() if rng.random() < 0.6 else ' '.join(note() for _ in range(rng.randint(2, 3)))
+        text = f'**kern\n*clefG2\n{cell}\n*-\n'
+        viol = []
+        try:
+            doc, errs = kp.loads(text)
+        except Exception:
+            continue
+        if errs:
+            continue
+        try:
+            t1 = kp.dumps(doc)
+            d2, errs2 = kp.loads(t1)
+            t2 = kp.dumps(d2)
+            e1 = kp.dumps(doc, encoding=kp.Encoding.eKern)
+            d3, errs3 = kp.loads(kp.get_kern_from_ekern(e1))
+            e2 = kp.dumps(d3, encoding=kp.Encoding.eKern)
+            if errs2 or errs3:
+                viol.append(('reimport-errors', f'multi-character signifiers: the export of {cell!r} re-imports with errors', {'text': text}))
+            elif t1 != t2:
+                viol.append(('idempotent', f'multi-character signifiers: {cell!r} exports {t1.split(chr(10))[2]!r}, then {t2.split(chr(10))[2]!r}', {'text': text}))
+            elif e1 != e2:
+                c1, c2 = e1.split(chr(10))[2], e2.split(chr(10))[2]
+                # same characters, cut differently: neighbouring signifiers that the grammar reads as ONE (finding K12)
+                tag = 'merged-signifiers: ' if c1.replace('·', '') == c2.replace('·', '') else ''
+                viol.append(('extended-idempotent', f'{tag}multi-character signifiers: {cell!r} extended {c1!r}, then {c2!r}', {'text': text}))
+        except Exception as e:
+            viol.append(('reimport-raises', f'multi-character signifiers: round trip of {cell!r} raised {type(e).__name__}', {'text': text}))
+        records.append(engine.rec('multi', viol=viol, kind='multi-char-signifiers', key=('multi', cell)))
+    return {'records': records}
+
+
 def sweep_worker(kp, job):
     cells = job
     records = []
@@ -140,8 +187,10 @@ def run(chk):
     chk.rule = ('(a) every printable ASCII character at every slot of a note and of a rest (with/without accidental, doubled, in a '
                 'chord, after a barline) and every ordered pair of the signifier tables (a seeded third in the quick tier) plus '
                 'random CKL tokens: kernpy token vs model token; (b) generated documents: default and extended export, the '
-                'separator-free extended text, re-import, and a second layout of every note; non-trivial = distinct cell / text')
+                'separator-free extended text, re-import, and a second layout of every note; (c) notes and chords with signifiers of '
+                'more than one character (&( &) Ww TT xx yy [y ??) mixed with their parts: fixed point on kernpy alone; non-trivial = distinct cell / text')
     results = engine.pmap(sweep_worker, jobs) + engine.pmap(doc_worker, [(chk.seed, i) for i in range(ndocs)])
+    results += engine.pmap(multi_worker, [(chk.seed, i) for i in range(core.budget(chk, full, 16, 160))])
     engine.settle(chk, results, model)
     chk.disagreements_checked = len(chk.broken)
 
